@@ -25,7 +25,7 @@ SPEC = dict(
     trusted_base=[
         "the token list handed to the model parser is produced by the real lexer (parser.LexToList); the lexer itself is not modelled here (C18/C08)",
         "the 3-slot look-ahead ring is not modelled in the parser model (argued invisible, notes in Model/Parser.lean) and over-approximated in the channel model",
-        "goroutine accounting: runtime.NumGoroutine settling (<=200 ms) + goroutine profile filtered on parser.(*lexer).run",
+        "goroutine accounting: runtime.NumGoroutine settling (<=2 s) + goroutine profile filtered on parser.(*lexer).run",
     ],
     assumptions=[],
     decode=decode,
